@@ -37,7 +37,7 @@ class Job:
                  bound=None, replay=False, fallback=None, config='slack', min_obl=1,
                  entry='harness', checks=None, slice_tag=None, nondet_static=False,
                  note='', assumptions=(), object_bits=None, instrument=(), weight=1,
-                 no_repo_inc=False, sliced=False, split=None, no_std_checks=False, frame_prop=None):
+                 no_repo_inc=False, sliced=False, split=None, no_std_checks=False, frame_prop=None, stubs=()):
         self.name = name
         self.props = list(props)
         self.engine = engine            # 'A' loop contracts, 'C' loop-free, 'B' bounded
@@ -71,6 +71,7 @@ class Job:
         self.no_repo_inc = no_repo_inc
         self.split = (engine == 'A') if split is None else split
         self.no_std_checks = no_std_checks
+        self.stubs = list(stubs)             # /verif-relative model/stub sources (cbmc only, not linked into replays)
         self.frame_prop = frame_prop         # property an 'assigns' obligation belongs to (default C01)
         self.sliced = sliced                 # run once per property with only that property's clauses
 
@@ -150,7 +151,8 @@ def compile_cmd(job, scratch, paths, out):
     if not job.no_repo_inc:
         inc += REPO_INC()
     cmd = ['goto-cc'] + inc + ['-DHAVE_CONFIG_H'] + ['-D' + d for d in job.defines]
-    cmd += ['--function', job.entry, os.path.join(VERIF, job.harness)] + paths + ['-o', out]
+    cmd += ['--function', job.entry, os.path.join(VERIF, job.harness)] + paths
+    cmd += [os.path.join(VERIF, x) for x in job.stubs] + ['-o', out]
     return cmd
 
 
@@ -364,7 +366,10 @@ def run_job(job, tier='quick', want_trace=False, keep=None, select=None):
         return res
     finally:
         res['wall_s'] = round(time.time() - t0, 2)
-        shutil.rmtree(scratch, ignore_errors=True)
+        if os.environ.get('VERIF_KEEP'):
+            sys.stderr.write('kept scratch: %s\n' % scratch)
+        else:
+            shutil.rmtree(scratch, ignore_errors=True)
 
 
 # ---------------------------------------------------------------- attribution
@@ -453,6 +458,8 @@ def trace_inputs(trace, prefix='IN'):
         if not (lhs == prefix or lhs.startswith(prefix + '.') or lhs.startswith(prefix + '[')
                 or lhs.startswith(prefix + '_')):
             continue
+        if '$' in lhs:
+            continue
         v = st.get('value', {})
         if v.get('name') in ('integer', 'float') and 'binary' in v:
             vals[lhs] = v
@@ -497,7 +504,7 @@ def native_replay(job, inputs, workdir=None):
         if p.returncode != 0:
             return {'reproduced': False, 'rc': None,
                     'output': 'replay build failed:\n' + p.stderr[-3000:], 'cmd': ' '.join(cmd)}
-        env = dict(os.environ, ASAN_OPTIONS='detect_leaks=1:abort_on_error=0', LC_ALL='C')
+        env = dict(os.environ, ASAN_OPTIONS=('detect_leaks=1' if 'C20' in job.props and len(job.props) == 1 else 'detect_leaks=0') + ':abort_on_error=0', LC_ALL='C')
         try:
             r = subprocess.run([exe], capture_output=True, text=True, timeout=60, env=env, cwd=scratch)
             rc, out = r.returncode, (r.stdout + r.stderr)[-6000:]
